@@ -378,3 +378,37 @@ def specialise(h, call):
     if r is None:
         return None
     return out
+
+
+def entry_views(index, graph, root, name, depth=3):
+    """
+    [(Func, local name, call chain)] — every function in which the object that `root` holds in local `name` is visible:
+    root itself, its nested functions (closure, same name), and the private helpers of its region that receive it as a
+    plain argument (under the parameter's name), transitively. `call chain` is the list of (caller Func, Call node)
+    leading from root to that view (empty for root / closures): the guards on the way to a construct in a helper are
+    the guards inside the helper plus those around each call of the chain.
+    """
+    reg = Region(index, graph, root, depth=depth)
+    out = [(root, name, [])]
+    for g in index.funcs.values():
+        if g.outer is root and name not in g.params:
+            out.append((g, name, []))
+    frontier = list(out)
+    seen = {(root.qual, name)}
+    for _ in range(depth):
+        new = []
+        for f, nm, chain in frontier:
+            for c in iter_own(f.node):
+                if not isinstance(c, ast.Call):
+                    continue
+                h = index.funcs.get(index.callee(f.mod, c, f) or "")
+                if h is None or h not in reg.funcs or h is f:
+                    continue
+                for p, a in index.bound_args(f.mod, c, f).items():
+                    if isinstance(a, ast.Name) and a.id == nm and p in h.params and (h.qual, p) not in seen:
+                        seen.add((h.qual, p))
+                        v = (h, p, chain + [(f, c)])
+                        out.append(v)
+                        new.append(v)
+        frontier = new
+    return out
